@@ -345,7 +345,7 @@ class Standardize(PostProcessor):
             np.save(wfilename, self._stats)
         elif wfilename.endswith(".npz"):
             array = dict()
-            if overwrite:
+            if not overwrite:
                 try:
                     with np.load(wfilename) as archive:
                         array = dict(archive)
